@@ -96,7 +96,7 @@ def main():
                        "level_note": c["note"], "technique": c["tech"]})
     m = {"version": 1, "setup_cmd": "./setup.sh",
          "hooks": {"guard": "sonic_rs_verif", "enable": "RUSTFLAGS=\"--cfg sonic_rs_verif -C target-cpu=native\" (set in /verif/harness/.cargo/config.toml)",
-                   "baseline_off_cmd": "cd /repo && cargo test --workspace --offline --lib", "source_commits": hooks, "add_only": True},
+                   "baseline_off_cmd": "cd /repo && cargo test --workspace --offline --lib", "source_commits": hooks, "add_only": False},
          "engines": [{"name": "coq-model", "path": "/verif/coq", "serves_properties": sorted(C),
                       "kind_free_text": "Coq 8.16 development (Spec/Model/Props) + extracted OCaml model runner + Rust correspondence harness"}],
          "checks": checks,
